@@ -10,6 +10,8 @@ from ..lib import FAILED, EPS
 from ..runner import Sub
 
 ID = 'C17'
+TECHNIQUE = 'PBT against exact rational geometry with conditioning-aware tolerances'
+LEVEL_TEXT = 'Exploration: Distances, IoU, Menger curvature, rank; offsets, short segments, integer-typed triples. Finds counter-examples (shrunk to a replay file); never proves absence.'
 RULE = ('Sub-checks: distance (shortest / perpendicular / index variant vs exact rational geometry), '
         'rect (IoU vs rational reference, symmetry, range), menger (reciprocal circumradius, 6 '
         'permutations), rank (permutation ordering the values), misc (distances, similarity, triangle '
